@@ -6,7 +6,7 @@
    util.StringIter with rewinds         -> [iter] values (a rewind = reuse of a saved value).
    StopIteration / DotException / PathNameException -> result constructors.
    Loops over the input                 -> recursion on explicit fuel; [Fuel] is a distinct outcome. *)
-From WC Require Import Str.
+From WC Require Import Str WinDrive.
 From WC.Gen Require Import Consts Posix FlagFuns.
 Import Mwcparse.
 Open Scope Z_scope.
@@ -662,26 +662,41 @@ Definition maybe_drive (p : str) : bool :=
   end.
 
 (* root (1550-1631) *)
+(* escape_drive (563-566) and the regex text of a Windows drive / UNC prefix (_get_win_drive with regex=True) *)
+Definition escape_drive (cs : bool) (d : str) : str := if cs then S_ "(?i:" ++ re_escape d ++ S_ ")" else re_escape d.
+Definition drive_regex (cs : bool) (d : drive) : option str :=
+  match d with
+  | DNone => None
+  | DLetter t => Some (escape_drive cs t)
+  | DUnc parts => Some (S_ "[\\/]{2}" ++ join_with (S_ "[\\/]") (map (escape_drive cs) parts))
+  end.
+
 Definition root (cf : cfg) (st : pst) (p : str) (cur : list item) : res (pst * list item) + perr :=
   let st0 := set_after_start st in
-  if c_windrive cf && maybe_drive p then inr EUnsupported
+  let '(root_specified, dtext, dslash, dend) :=
+    if c_windrive cf then
+      let '(rs, d, sl, e) := get_win_drive p in (rs, drive_regex (c_cs cf) d, sl, e)
+    else (c_pathname cf && starts_with [cSL] p, None, false, 0%N) in
+  if c_noabs cf && root_specified then inr EValue
   else
-    let root_specified :=
-      if c_windrive cf then starts_with [cSL] p || starts_with [cBS; cBS] p
-      else c_pathname cf && starts_with [cSL] p in
-    if c_noabs cf && root_specified then inr EValue
-    else
-      let st1 := if root_specified then set_extmatchbase (set_matchbase st0 false) false else st0 in
-      let cur1 := if negb root_specified && c_realpath cf
-                  then T [] :: T (if c_windrive cf then Frag.u_NO_WIN_ROOT else Frag.u_NO_ROOT) :: cur else cur in
-      match root_loop (fuel_for p) cf st1 {| idx := 0; rest := p |} cur1 with
-      | Fuel => inr EFuel
-      | Stop => inl Stop
-      | Ok (st2, cur2) =>
-        let '(st3, cur3) := clean_up_inverse cf st2 cur2 false in
-        let cur4 := if c_pathname cf then T (format Frag.u_PATH_TRAIL (c_sep cf) []) :: cur3 else cur3 in
-        inl (Ok (st3, cur4))
-      end.
+    let st1 := if root_specified then set_extmatchbase (set_matchbase st0 false) false else st0 in
+    let cur1 := if negb root_specified && c_realpath cf
+                then T [] :: T (if c_windrive cf then Frag.u_NO_WIN_ROOT else Frag.u_NO_ROOT) :: cur else cur in
+    let '(cur2, it0) :=
+      match dtext with
+      | Some t =>
+          (if dslash then T (c_sep cf ++ Frag.u_ONE_OR_MORE) :: T t :: cur1 else T t :: cur1,
+           consume_path_sep cf {| idx := Z.of_N dend; rest := drop (N.to_nat dend) p |})
+      | None => (cur1, {| idx := 0; rest := p |})
+      end in
+    match root_loop (fuel_for p) cf st1 it0 cur2 with
+    | Fuel => inr EFuel
+    | Stop => inl Stop
+    | Ok (st2, cur2') =>
+      let '(st3, cur3) := clean_up_inverse cf st2 cur2' false in
+      let cur4 := if c_pathname cf then T (format Frag.u_PATH_TRAIL (c_sep cf) []) :: cur3 else cur3 in
+      inl (Ok (st3, cur4))
+    end.
 
 Fixpoint strip_slashes (p : str) : str * bool :=
   match p with
